@@ -218,6 +218,10 @@ def arith(op, a, b, ex=None, node=None):
             return fl.div_nonzero(x, y)
         if op == "**":
             if isinstance(b, int) and b == 2:
+                if ABSTRACT_SQUARE:
+                    # x ** 2 as an uninterpreted function of x (same kind rules as x * x): enough where squares are only compared
+                    # for equality, and it keeps the queries linear
+                    return fl.square_uf(x)
                 return fl.mul(x, x)
             raise Unsupported("float ** non-2")
         if op == "%":
@@ -320,6 +324,9 @@ def compare(op, a, b, spec=False):
         return {"<": z3.ULT(x, y), "<=": z3.ULE(x, y), ">": z3.UGT(x, y), ">=": z3.UGE(x, y)}[op]
     x, y = to_int(a), to_int(b)
     return {"<": x < y, "<=": x <= y, ">": x > y, ">=": x >= y}[op]
+
+
+ABSTRACT_SQUARE = False   # set per contract (option abstract_square) by verify_contract
 
 
 BINOPS = {ast.Add: "+", ast.Sub: "-", ast.Mult: "*", ast.Div: "/", ast.FloorDiv: "//", ast.Mod: "%", ast.Pow: "**",
